@@ -15,8 +15,9 @@ func registerFS(e *Engine) {
 // bufio.Scanner over a strings.Reader (ScanLines): the scanner is a heap object holding
 // the unread remainder of the string.
 type scanState struct {
-	Rest *Term
-	Tok  *Term
+	Rest    *Term
+	Tok     *Term
+	TooLong bool // Scan stopped on a line that does not fit the buffer
 }
 
 func registerScanner(e *Engine) {
@@ -67,7 +68,21 @@ func registerScanner(e *Engine) {
 			} else {
 				line, nr = rest.S[:i], rest.S[i+1:]
 			}
-			c.St.Heap[obj] = Opaque{Kind: "bufio.Scanner", Data: scanState{Rest: StrC(nr), Tok: StrC(strings.TrimSuffix(line, "\r"))}}
+			okEff := func(st *State) {
+				st.Heap[obj] = Opaque{Kind: "bufio.Scanner", Data: scanState{Rest: StrC(nr), Tok: StrC(strings.TrimSuffix(line, "\r"))}}
+			}
+			if sz, ok := c.St.Ghost["jsonsize:"+line].(*Term); ok {
+				// the line is an encoded payload whose wire size is symbolic: a line of 64 KiB or more
+				// does not fit the scanner's buffer (bufio.MaxScanTokenSize): Scan stops with ErrTooLong
+				long := intCmp(">=", sz, IntC(65536))
+				return c.Outcomes(c.sol2(), []Outcome{
+					{Cond: Not(long), Ret: True, Eff: okEff},
+					{Cond: long, Ret: False, Eff: func(st *State) {
+						st.Heap[obj] = Opaque{Kind: "bufio.Scanner", Data: scanState{Rest: StrC(""), Tok: StrC(""), TooLong: true}}
+					}},
+				})
+			}
+			okEff(c.St)
 			return c.Return(True)
 		}
 		l := FreshVar("scan.line", SString, 0)
@@ -91,7 +106,12 @@ func registerScanner(e *Engine) {
 		_, ss := get(c)
 		return c.Return(ss.Tok)
 	}
-	e.Intr["(*bufio.Scanner).Err"] = func(c *Call) []*State { return c.Return(Iface{}) }
+	e.Intr["(*bufio.Scanner).Err"] = func(c *Call) []*State {
+		if _, ss := get(c); ss.TooLong {
+			return c.Return(e.newErrorString(c.St, StrC("bufio.Scanner: token too long")))
+		}
+		return c.Return(Iface{})
+	}
 }
 
 // encoding/json.Marshal (DESIGN.md 3.3): the payload is opaque; Marshal fails exactly
@@ -156,6 +176,48 @@ func (e *Engine) jsonUnsupported(st *State, v Value, depth int) string {
 }
 
 func registerJSON(e *Engine) {}
+
+// jsonSymStrings collects the symbolic string leaves of a value graph (for the wire-size
+// lower bound of an encoded payload).
+func (e *Engine) jsonSymStrings(st *State, v Value, depth int, out *[]*Term) {
+	if depth > 24 {
+		return
+	}
+	switch x := v.(type) {
+	case *Term:
+		if x.Kind == SString && !x.Const {
+			*out = append(*out, x)
+		}
+	case Iface:
+		if x.T != nil {
+			e.jsonSymStrings(st, x.V, depth+1, out)
+		}
+	case MapRef:
+		if x.Obj != 0 {
+			for _, mv := range st.Heap[x.Obj].(*MapObj).Vals {
+				e.jsonSymStrings(st, mv, depth+1, out)
+			}
+		}
+	case Slice:
+		for i := 0; i < x.Len; i++ {
+			e.jsonSymStrings(st, st.Load(Ptr{Obj: x.Obj, Path: []int{x.Off + i}}), depth+1, out)
+		}
+	case *Struct:
+		for _, f := range x.F {
+			e.jsonSymStrings(st, f, depth+1, out)
+		}
+	case *Array:
+		for _, f := range x.E {
+			e.jsonSymStrings(st, f, depth+1, out)
+		}
+	case Ptr:
+		if !x.IsNil() {
+			if _, isOpaque := st.Heap[x.Obj].(Opaque); !isOpaque {
+				e.jsonSymStrings(st, st.Load(x), depth+1, out)
+			}
+		}
+	}
+}
 
 // sort.Slice / sort.SliceStable (n <= 12): stable insertion sort calling the real less
 // closure (Go's pdqsort uses insertion sort for n <= 12, hence is stable there). The
